@@ -742,6 +742,8 @@ def run(chk, arim, rng, quick):
         got = ([], [])
         if ec == 0:
             got = rays_obs(R)
+            if R.indices.size and int(R.indices.min()) < 0:
+                chk.count(tie_C01="dtype:stored-index-wrapped-negative")
             if R.indices.dtype != BITS[b]:
                 ec, msg = 6, f"dtype of indices {R.indices.dtype}"
         lit_c = f"CDt {c_sets(cloud)} {cZ(b)} {c_lit(lit)} {cZ(ec)} {c_rays_obs(got)}"
